@@ -17,6 +17,10 @@ CHECKS = {
    text="explicit-state BFS (to a fixpoint in the thorough tier) over real pivot events on 4 agents; every transition is executed on a fresh real teamserver with a real SQLite file (callbacks relayed through the real parent chain); forest invariants I1-I6 incl. the raw TS_Links rows are evaluated in every state",
    note="universe of 4 agents, sequential event delivery; the Demon side of the SMB relay is the demonwire transcription",
    technique="explicit-state BFS over event histories with canonical-state de-duplication, executed on the implementation"),
+ "C06": dict(level="model_checking",
+   text="product enumeration of the first-message shape grammar x follow-up menu through the real per-connection handler on a real gorilla server connection (operator and service endpoints), plus stateless exploration of every schedule within a preemption bound of handshake vs broadcasting listener vs peer close on instrumented code",
+   note="gorilla websocket is the real library on a scripted in-memory connection; 3 threads, preemption bound 2/3; first-message grammar as listed in the evidence",
+   technique="bounded-exhaustive product enumeration + controlled-scheduler stateless model checking of the implementation"),
 }
 NA_REASON = "check under construction in this session (see DESIGN.md §4); not yet claimed"
 
